@@ -55,8 +55,8 @@ try:
     demo = os.path.join(out, 'demo.py')
     is_pytest = 'def test_' in open(demo).read() and '__main__' not in open(demo).read()
     runner = '/venv/bin/python -m pytest -q -p no:cacheprovider %s' % demo if is_pytest else '/venv/bin/python %s' % demo
-    rc_with, o_with = sh(runner, cwd=wt, env={'PYTHONPATH': wt})
-    rc_without, o_without = sh(runner, cwd=clean, env={'PYTHONPATH': clean})
+    rc_with, o_with = sh(runner, cwd=wt, env={'PYTHONPATH': wt, 'GLUE_SRC': wt})
+    rc_without, o_without = sh(runner, cwd=clean, env={'PYTHONPATH': clean, 'GLUE_SRC': clean})
     meta['demo'] = dict(cmd=runner, exit_with_change=rc_with, exit_without_change=rc_without,
                         tail_with=o_with.strip().splitlines()[-3:], tail_without=o_without.strip().splitlines()[-2:])
     print('demo: with change exit=%d, without exit=%d' % (rc_with, rc_without))
